@@ -24,6 +24,7 @@ import (
 	"runtime"
 	"strings"
 	"sync"
+	"sync/atomic"
 	"testing"
 	"time"
 
@@ -46,6 +47,10 @@ type jLifeDevice struct {
 	// SlowMs > 0: the OpenRGB server answers the controller queries (count, data) this many ms late; together with EarlyMs the event stream
 	// ends while such a query is in flight
 	SlowMs int `json:"slow_ms"`
+	// StallMs > 0 (with PadLeds thousands of further LEDs, so that one frame is larger than the socket buffers): after the last event the
+	// OpenRGB server stops reading for this many ms; CloseUs later the stream ends - while the LED loop sits inside a frame, blocked in its write
+	StallMs int `json:"stall_ms"`
+	PadLeds int `json:"pad_leds"`
 }
 
 type jLifeScenario struct {
@@ -99,13 +104,18 @@ func runLifeDevice(c jLifeDevice, shared *config.DeviceConfig) (res jLifeDevResu
 		port = freePort()
 	} else {
 		var err error
-		srv, err = startFakeORGB(append(append([]string{}, c.Leds...), verifStampLed), "Verif Keyboard")
+		names := append(append([]string{}, c.Leds...), verifStampLed)
+		for i := 0; i < c.PadLeds; i++ {
+			names = append(names, fmt.Sprintf("Pad %d", i))
+		}
+		srv, err = startFakeORGB(names, "Verif Keyboard")
 		if err != nil {
 			res.Err = "fake OpenRGB server: " + err.Error()
 			return
 		}
 		defer srv.close()
 		srv.delay = time.Duration(c.SlowMs) * time.Millisecond
+		atomic.StoreInt64(&srv.stallFor, int64(time.Duration(c.StallMs)*time.Millisecond))
 		port = srv.port
 	}
 	devCfg := config.DeviceConfig{ConfigFile: "verif", ConfigType: "user"}
@@ -207,7 +217,10 @@ func runLifeDevice(c jLifeDevice, shared *config.DeviceConfig) (res jLifeDevResu
 			State: jState{int(st.Octave), int(st.Semitone), int(st.Channel), st.Notes, st.Mapping}})
 	}
 	if !aborted {
-		// no synchronisation with the device or the server from here to close()
+		// no synchronisation with the device or the server from here to close() (the stall flag is an edge harness -> server only)
+		if srv != nil && c.StallMs > 0 {
+			atomic.StoreInt32(&srv.stall, 1)
+		}
 		if c.CloseUs > 0 {
 			time.Sleep(time.Duration(c.CloseUs) * time.Microsecond)
 		}
@@ -243,7 +256,7 @@ func runLifeDevice(c jLifeDevice, shared *config.DeviceConfig) (res jLifeDevResu
 					}
 				}
 				return true
-			}, 500*time.Millisecond) != nil
+			}, time.Duration(500+4*c.StallMs)*time.Millisecond) != nil
 		}
 		res.Frames, _, _, res.SrvErrs = srv.snapshot()
 		if res.Frames > 0 {
